@@ -521,6 +521,13 @@ func (cs *connState) handleRequest() bool {
 		return false
 	}
 
+	// Try to start the tag. This is done before another goroutine is
+	// allowed to receive: a Tflush that follows this request on the wire
+	// must find its tag in flight, or it would be answered while this
+	// request is (about to be) executing.
+	protoErr := err != nil && err != io.EOF
+	tagStarted := !protoErr && cs.StartTag(tag)
+
 	// Ensure that another goroutine is available to receive from cs.t.
 	if atomic.LoadInt32(&cs.recvIdle) == 0 {
 		cs.pendingWg.Add(1)
@@ -532,7 +539,7 @@ func (cs *connState) handleRequest() bool {
 	cs.recvMu.Unlock()
 
 	// Deal with other errors.
-	if err != nil && err != io.EOF {
+	if protoErr {
 		// If it's not a connection error, but some other protocol error,
 		// we can send a response immediately.
 		cs.sendMu.Lock()
@@ -544,8 +551,7 @@ func (cs *connState) handleRequest() bool {
 		return true
 	}
 
-	// Try to start the tag.
-	if !cs.StartTag(tag) {
+	if !tagStarted {
 		cs.server.log.Printf("no valid tag [%05d]", tag)
 		// Nothing we can do at this point; client is bogus.
 		return true
